@@ -222,6 +222,23 @@ SPECS = {
         ("hyperelastic_speed_saved_stale", R + "Simulations/_hyperelastic.py", "            iter[\"speed\"] = self._Get_v_n(self.problemType)", "            iter[\"speed\"] = self._Get_a_n(self.problemType)"),
         ("weakforms_v_saved_as_u", R + "Simulations/_weakforms.py", "            iter[\"u\"] = self.u\n            iter[\"v\"] = self.v\n\n        elif", "            iter[\"u\"] = self.u\n            iter[\"v\"] = self.u\n\n        elif"),
     ],
+    "C16": [
+        ("elastic_vy_reads_vx", R + "Simulations/_elastic.py", "        elif result in [\"vx\", \"vy\", \"vz\"]:\n            values_n = self.speed.reshape(Nn, -1)\n            values = values_n[:, self.__indexResult(result)]", "        elif result in [\"vx\", \"vy\", \"vz\"]:\n            values_n = self.speed.reshape(Nn, -1)\n            values = values_n[:, min(self.__indexResult(result), 0)]"),
+        ("elastic_accel_norm_of_speed", R + "Simulations/_elastic.py", "        elif result == \"accel_norm\":\n            val_n = self.accel.reshape(Nn, -1)", "        elif result == \"accel_norm\":\n            val_n = self.speed.reshape(Nn, -1)"),
+        ("vm3d_shear_factor", MUT, "                    + 6 * (xy**2 + yz**2 + xz**2)", "                    + 3 * (xy**2 + yz**2 + xz**2)"),
+        ("vm2d_sign", MUT, "            vm = np.sqrt(xx**2 + yy**2 - xx * yy + 3 * xy**2)", "            vm = np.sqrt(xx**2 + yy**2 + xx * yy + 3 * xy**2)"),
+        ("component_xz_yz_swapped", MUT, "        elif \"yz\" in result:\n            result_e_pg = yz\n        elif \"xz\" in result:\n            result_e_pg = xz", "        elif \"yz\" in result:\n            result_e_pg = xz\n        elif \"xz\" in result:\n            result_e_pg = yz"),
+        ("mandel_coef_not_removed_3d", MUT, "        field_e_pg[:, :, 3:] *= 1 / coef", "        field_e_pg[:, :, 4:] *= 1 / coef"),
+        ("node_values_divides_by_all_elements", MESH, "            values_n = (connect_n_e @ values_e) * 1 / elements_n", "            values_n = (connect_n_e @ values_e) * 1 / np.maximum(elements_n, 2)"),
+        ("element_values_first_group_only", SIMU, "                values_n = values.reshape(Nn, -1)\n                values_e = np.concatenate(\n                    [\n                        np.mean(values_n[groupElem.connect], axis=1)\n                        for groupElem in mesh.Get_list_groupElem(mesh.dim)\n                    ]\n                )\n                return values_e.reshape(-1 if is1d else (Ne, -1))", "                values_n = values.reshape(Nn, -1)\n                values_e = np.concatenate(\n                    [\n                        np.mean(values_n[groupElem.connect[:, : groupElem.nbCorners]], axis=1)\n                        for groupElem in mesh.Get_list_groupElem(mesh.dim)\n                    ]\n                )\n                return values_e.reshape(-1 if is1d else (Ne, -1))"),
+        ("wdef_not_halved_thickness", R + "Simulations/_elastic.py", "            values = self._Calc_Psi_Elas(returnScalar=False)\n            onNodes = False", "            values = self._Calc_Psi_Elas(returnScalar=False, matrixType=MatrixType.mass)\n            onNodes = False"),
+        ("reaction_drops_damping", SIMU, "        elif self.algo in AlgoType.Get_Hyperbolic_Types():\n            reaction[dofs] += C[dofs] @ self._Get_v_n(problemType)\n            reaction[dofs] += M[dofs] @ self._Get_a_n(problemType)", "        elif self.algo in AlgoType.Get_Hyperbolic_Types():\n            reaction[dofs] += M[dofs] @ self._Get_a_n(problemType)"),
+        ("thermal_dot_reads_thermal", R + "Simulations/_thermal.py", "        elif result == \"thermalDot\":\n            values = self.thermalDot", "        elif result == \"thermalDot\":\n            values = self.thermal"),
+        ("beam_cz_index", R + "Simulations/_beam.py", "            if dim == 2:\n                return 2\n            elif dim == 3:\n                return 5\n            else:\n                raise ValueError(\"result error\")\n        elif result == \"N\":", "            if dim == 2:\n                return 2\n            elif dim == 3:\n                return 4\n            else:\n                raise ValueError(\"result error\")\n        elif result == \"N\":"),
+        ("phasefield_stress_undamaged", R + "Simulations/_phasefield.py", "                    self._Calc_Sigma_e_pg(Eps, groupElem=groupElem) if isStress else Eps", "                    self._Calc_Sigma_e_pg(Eps, groupElem=groupElem) if isStress and \"vm\" not in res else Eps"),
+        ("inelastic_p_unaveraged", R + "Simulations/_inelastic.py", "                self.__Get_state(groupElem, MatrixType.rigi)[..., slot.start], axis=1", "                self.__Get_state(groupElem, MatrixType.rigi)[..., slot.start][:, :1], axis=1"),
+        ("hyperelastic_exy_index", R + "Simulations/_hyperelastic.py", "            values_n = self.accel.reshape(Nn, -1)\n            values = values_n[:, self.__indexResult(result)]", "            values_n = self.speed.reshape(Nn, -1)\n            values = values_n[:, self.__indexResult(result)]"),
+    ],
 }
 
 
